@@ -34,6 +34,8 @@ MIN_RECALL = 0.95       # "nearly all true correspondences are returned"
 DRIFT_SLACK_PPM = 0.01  # numerical slack on top of the deterministic least-squares bound
 JMAX = 1e-4
 CRASH_KIND = "C19.sync"
+TBIN = 0.1              # the documented default of tbin; also the value passed when tbin is given explicitly
+INPUT_KINDS = ["array", "array", "readonly", "strided"]
 
 
 # --------------------------------------------------------------------------------------------------
@@ -48,11 +50,44 @@ def _st_missing(n):
     return st.one_of(free, free, run, head, tail).map(sorted)
 
 
+def _draw_call_form(draw, case, long_drift):
+    """How sync_timestamps is called (signature: tsa, tsb, tbin=0.1, return_indices=False, linear=False). All False =
+    the plain default call sync_timestamps(tsa, tsb) when linear is False (the minimal case under shrinking)."""
+    case["return_indices"] = draw(st.sampled_from([False, False, True])) if long_drift else draw(st.booleans())
+    case["pass_tbin"] = draw(st.booleans())      # tbin=0.1 given explicitly / left at its default
+    case["pass_ri"] = draw(st.booleans())        # return_indices=False given explicitly / left out (True is always given)
+    case["pass_linear"] = draw(st.booleans())    # linear=False given explicitly / left out (True is always given)
+    case["positional"] = draw(st.sampled_from([False, False, True]))  # options as keywords / positionally
+    case["input_kind"] = draw(st.sampled_from(INPUT_KINDS))
+
+
 @st.composite
 def _case(draw):
-    n = draw(st.one_of(st.integers(30, 300), st.integers(30, 60), st.sampled_from([30, 31, 299, 300])))
-    gap_mode = draw(st.sampled_from(["uniform", "uniform", "bounds", "skewed", "grid", "band", "long_short"]))
+    # one case in twelve is built inside the regime in which the first (constant offset, one bin) assignment cannot
+    # reach the ends of the train: |drift| * duration > 2 * tbin, with jitter, mostly interpolating mode
+    long_drift = draw(st.sampled_from([False] * 11 + [True]))
+    if long_drift:
+        n = draw(st.one_of(st.integers(270, 300), st.sampled_from([299, 300])))
+        gap_mode = draw(st.sampled_from(["band", "band", "long_short"]))
+    else:
+        n = draw(st.one_of(st.integers(30, 300), st.integers(30, 60), st.sampled_from([30, 31, 299, 300])))
+        gap_mode = draw(st.sampled_from(["uniform", "uniform", "bounds", "skewed", "grid", "band", "long_short"]))
     case = {"n": n, "gap_mode": gap_mode, "seed": draw(st.integers(0, 2 ** 32 - 1))}
+    if long_drift:
+        if gap_mode == "band":
+            lo = draw(st.floats(7.0, 9.0))
+            case["band"] = [lo, 10.0 - lo]
+        case["start"] = draw(st.integers(0, 40000)) / 8.0 + draw(st.floats(0, 0.124))
+        case["drift_ppm"] = draw(st.sampled_from([-1.0, 1.0])) * draw(st.one_of(st.floats(85, 100), st.just(100.0)))
+        case["offset"] = draw(st.one_of(st.floats(-600, 600), st.floats(-5, 5), st.sampled_from([0.0, 60.0, -60.0])))
+        case["jitter"] = draw(st.one_of(st.floats(0.2 * JMAX, JMAX), st.just(JMAX)))
+        case["jitter_mode"] = draw(st.sampled_from(["uniform", "uniform", "extreme", "adversarial"]))
+        case["miss_a"] = draw(_st_missing(n))
+        case["miss_b"] = draw(_st_missing(n))
+        case["linear"] = draw(st.sampled_from([False, False, False, True]))
+        case["intspan"] = False
+        _draw_call_form(draw, case, True)
+        return case
     if gap_mode == "band":
         # gaps uniform in [lo, lo + width], width >= 1 s (narrower bands are nearly periodic, see ASSUMPTIONS)
         width = draw(st.floats(1.0, 9.5))
@@ -77,6 +112,7 @@ def _case(draw):
     case["miss_b"] = draw(_st_missing(n))
     case["linear"] = draw(st.booleans())
     case["intspan"] = draw(st.sampled_from([False] * 9 + [True]))
+    _draw_call_form(draw, case, False)
     return case
 
 
@@ -230,24 +266,144 @@ def _labels(case, t, ctx):
         ctx.label("series_disjoint_in_time")
     if ma and mb and dp > 10:
         ctx.nontrivial = True
+    # call form
+    ri = bool(case.get("return_indices", True))
+    args, kw = call_form(case, ri)
+    ctx.label("ri_true" if ri else "ri_false", "in_" + case.get("input_kind", "array"),
+              "tbin_explicit" if (len(args) >= 1 or "tbin" in kw) else "tbin_default")
+    if not args and not kw:
+        ctx.label("call_plain_default")
+    if args:
+        ctx.label("call_positional_%d" % len(args))
+    if not ri and (len(args) >= 2 or "return_indices" in kw):
+        ctx.label("ri_false_explicit")
+    if not case["linear"] and (len(args) >= 3 or "linear" in kw):
+        ctx.label("linear_false_explicit")
+    # regime in which the first assignment (constant offset, threshold one bin) cannot reach the ends of the train
+    if dp * 1e-6 * (t["ta"][-1] - t["ta"][0]) > 2 * TBIN:
+        ctx.label("drift_x_duration>0.2s")
+        if not case["linear"] and case["jitter"] > 0:
+            ctx.label("drift_x_duration>0.2s_interp_jitter")
+            if not ri:
+                ctx.label("drift_x_duration>0.2s_interp_jitter_ri_false")
+
+
+def call_form(case, ri):
+    """(args, kwargs) that follow tsa, tsb for the drawn call form with return_indices = ri. Options equal to their
+    documented default are left out unless the case says to pass them; positional forms pass the shortest prefix of
+    (tbin, return_indices, linear) that contains everything that has to be passed. Old cases (no call-form fields):
+    keywords return_indices=..., linear=... as before."""
+    lin = bool(case["linear"])
+    vals = [TBIN, bool(ri), lin]
+    need = [bool(case.get("pass_tbin", False)), bool(case.get("pass_ri", True)) or bool(ri),
+            bool(case.get("pass_linear", True)) or lin]
+    if case.get("positional", False):
+        k = max([i + 1 for i in range(3) if need[i]] or [0])
+        return tuple(vals[:k]), {}
+    return (), {name: v for name, v, q in zip(("tbin", "return_indices", "linear"), vals, need) if q}
+
+
+def _input(x, kind):
+    """A fresh float64 array holding x in the drawn layout (the original is kept for the unchanged-inputs check)."""
+    if kind == "strided":
+        buf = np.full(2 * x.size + 1, np.nan)
+        buf[1::2] = x
+        return buf[1::2]
+    y = x.copy()
+    if kind == "readonly":
+        y.flags.writeable = False
+    return y
+
+
+def _sync(case, t, ri, ctx):
+    """One call of the code under test in the drawn form; returns the validated tuple or None (finding reported)."""
+    kind = case.get("input_kind", "array")
+    a, b = _input(t["tsa"], kind), _input(t["tsb"], kind)
+    args, kw = call_form(case, ri)
+    r = ctx.call(CRASH_KIND, sut.utils().sync_timestamps, a, b, *args, **kw)
+    if r is ctx.CRASH:
+        return None
+    nret = 4 if ri else 2
+    if not ctx.check(isinstance(r, tuple) and len(r) == nret and callable(r[0]), "C19.return_shape",
+                     lambda: f"return_indices={ri}: expected a tuple of {nret} (function, drift{', ia, ib' if ri else ''}), got "
+                             f"{type(r).__name__} of length {len(r) if hasattr(r, '__len__') else '?'}"):
+        return None
+    # the caller's series are his own: tests and callers go on using tsa / tsb after the call
+    ctx.check(np.array_equal(a, t["tsa"]) and np.array_equal(b, t["tsb"]), "C19.inputs_modified",
+              "sync_timestamps changed the contents of an input array")
+    try:
+        dr = float(r[1]) if np.ndim(r[1]) == 0 else None
+    except (TypeError, ValueError):
+        dr = None
+    if not ctx.check(dr is not None and np.isfinite(dr), "C19.drift_type",
+                     lambda: f"return_indices={ri}: reported drift is not a finite real scalar: {r[1]!r}"[:300]):
+        return None
+    return (r[0], dr) + tuple(r[2:])
+
+
+def _held_out_times(case, t, lo, hi):
+    """Times at which the true map is known and that took no part in the fit: events removed from either side, gap
+    midpoints (a sample over the train and the three at each end), random times; restricted to the matched span."""
+    rng = np.random.default_rng(case["seed"] ^ 0x5DEECE66D)
+    ta = t["ta"]
+    mids = (ta[1:] + ta[:-1]) / 2
+    # order of the first three groups and the single rng draw are those of the earlier version of this check
+    th = np.r_[ta[~t["keep_a"]], mids[:: max(1, mids.size // 25)], rng.uniform(lo, hi, 16),
+               ta[~t["keep_b"]], mids[:3], mids[-3:]]
+    return th[(th >= lo) & (th <= hi)]
+
+
+def _check_map_and_drift(case, t, f, drift, th, tm, lo, hi, ctx):
+    d, b, J = t["d"], t["b"], t["J"]
+    got = ctx.call("C19.map_eval", lambda: np.asarray(f(th), dtype=float))
+    if got is not ctx.CRASH:
+        if ctx.check(got.shape == th.shape and np.all(np.isfinite(got)), "C19.map_finite", "mapping returns non-finite values or a wrong shape"):
+            err = float(np.max(np.abs(got - (th * (1 + d) + b)))) if th.size else 0.0
+            ctx.stat("map_err_s", err)
+            if J >= 1e-6:
+                ctx.stat("map_err_over_jitter", err / J)
+            ctx.check(err <= TOL_MAP, "C19.map_error", lambda: f"|f(t) - truth| = {err:.3g} s > {TOL_MAP} s at a held-out time inside the matched span")
+        else:
+            got = ctx.CRASH
+        if case["linear"]:
+            # docstring: linear=True restricts the fit to linear -> second differences vanish, also outside the span
+            x = np.array([lo - 100.0, (lo + hi) / 2, hi + 100.0 + (hi - lo)])
+            x[1] = (x[0] + x[2]) / 2
+            y = ctx.call("C19.map_eval", lambda: np.asarray(f(x), dtype=float))
+            if y is not ctx.CRASH and y.shape == (3,):
+                sd = float(abs(y[0] + y[2] - 2 * y[1]))
+                ctx.stat("linear_second_diff_s", sd)
+                ctx.check(sd <= 1e-7, "C19.linear_affine", lambda: f"linear=True but f is not affine: second difference {sd:.3g} s")
+    # drift
+    c = tm - tm.mean()
+    bound_ppm = J * np.sum(np.abs(c)) / np.sum(c ** 2) * 1e6
+    derr = abs(drift - case["drift_ppm"])
+    ctx.stat("drift_err_ppm", derr)
+    ctx.stat("drift_err_minus_bound_ppm", derr - bound_ppm)  # must stay below DRIFT_SLACK_PPM
+    if J >= 1e-6:
+        ctx.stat("drift_err_over_bound", derr / bound_ppm)
+    ctx.check(derr <= bound_ppm + DRIFT_SLACK_PPM, "C19.drift",
+              lambda: f"reported drift {drift:.6f} ppm, true {case['drift_ppm']:.6f} ppm, error {derr:.4g} > bound {bound_ppm:.4g} + {DRIFT_SLACK_PPM}")
+    return got
 
 
 def run_case(case, ctx):
     t = build(case)
     _labels(case, t, ctx)
-    tsa, tsb, ida, idb, d, b, J = t["tsa"], t["tsb"], t["ida"], t["idb"], t["d"], t["b"], t["J"]
+    tsa, tsb, ida, idb = t["tsa"], t["tsb"], t["ida"], t["idb"]
     if bins_short(tsa, tsb):
         ctx.label("bins_short")
-    fn = sut.utils().sync_timestamps
-    r = ctx.call(CRASH_KIND, fn, tsa.copy(), tsb.copy(), return_indices=True, linear=case["linear"])
-    if r is ctx.CRASH:
+    ri = bool(case.get("return_indices", True))
+    # the drawn form first; the default form (function, drift) carries no indices, so the documented other form of the
+    # same fit is called as well: it supplies the pairs (checked below as always) and with them the matched span
+    prim = _sync(case, t, ri, ctx)
+    if prim is None:
         return
-    if not ctx.check(isinstance(r, tuple) and len(r) == 4 and callable(r[0]), "C19.return_shape",
-                     lambda: f"expected (function, drift, ia, ib), got {type(r).__name__} of length {len(r) if hasattr(r, '__len__') else '?'}"):
+    full = prim if ri else _sync(case, t, True, ctx)
+    if full is None:
         return
-    f, drift, ia, ib = r
-    ia = np.asarray(ia)
-    ib = np.asarray(ib)
+    ia = np.asarray(full[2])
+    ib = np.asarray(full[3])
     ok = (ia.ndim == 1 and ib.ndim == 1 and ia.size == ib.size and ia.dtype.kind in "iu" and ib.dtype.kind in "iu"
           and (ia.size == 0 or (ia.min() >= 0 and ia.max() < tsa.size and ib.min() >= 0 and ib.max() < tsb.size)))
     if not ctx.check(ok, "C19.indices_valid", lambda: f"index arrays invalid: ia {ia.shape} {ia.dtype}, ib {ib.shape} {ib.dtype}, "
@@ -268,38 +424,19 @@ def run_case(case, ctx):
     ctx.check(recall >= MIN_RECALL, "C19.recall", lambda: f"{good} of {both.size} true correspondences returned (recall {recall:.3f} < {MIN_RECALL})")
     if wrong.size or ia.size < 2:
         return
-    # (3) the mapping at held-out times inside the matched span
+    # (3) the mapping at held-out times inside the matched span and (4) the reported drift - of every form called
     lo, hi = tsa[ia].min(), tsa[ia].max()
-    rng = np.random.default_rng(case["seed"] ^ 0x5DEECE66D)
-    held = t["ta"][~t["keep_a"]]
-    mids = (t["ta"][1:] + t["ta"][:-1]) / 2
-    th = np.r_[held, mids[:: max(1, mids.size // 25)], rng.uniform(lo, hi, 16)]
-    th = th[(th >= lo) & (th <= hi)]
-    got = ctx.call("C19.map_eval", lambda: np.asarray(f(th), dtype=float))
-    if got is not ctx.CRASH:
-        if ctx.check(got.shape == th.shape and np.all(np.isfinite(got)), "C19.map_finite", "mapping returns non-finite values or a wrong shape"):
-            err = float(np.max(np.abs(got - (th * (1 + d) + b)))) if th.size else 0.0
-            ctx.stat("map_err_s", err)
-            if J >= 1e-6:
-                ctx.stat("map_err_over_jitter", err / J)
-            ctx.check(err <= TOL_MAP, "C19.map_error", lambda: f"|f(t) - truth| = {err:.3g} s > {TOL_MAP} s at a held-out time inside the matched span")
-        if case["linear"]:
-            # docstring: linear=True restricts the fit to linear -> second differences vanish, also outside the span
-            x = np.array([lo - 100.0, (lo + hi) / 2, hi + 100.0 + (hi - lo)])
-            x[1] = (x[0] + x[2]) / 2
-            y = ctx.call("C19.map_eval", lambda: np.asarray(f(x), dtype=float))
-            if y is not ctx.CRASH and y.shape == (3,):
-                sd = float(abs(y[0] + y[2] - 2 * y[1]))
-                ctx.stat("linear_second_diff_s", sd)
-                ctx.check(sd <= 1e-7, "C19.linear_affine", lambda: f"linear=True but f is not affine: second difference {sd:.3g} s")
-    # (4) drift
+    th = _held_out_times(case, t, lo, hi)
+    if th.size:
+        if (th < lo + 0.1 * (hi - lo)).any() and (th > hi - 0.1 * (hi - lo)).any():
+            ctx.label("held_out_near_both_ends")
     tm = tsa[ia]
-    c = tm - tm.mean()
-    bound_ppm = J * np.sum(np.abs(c)) / np.sum(c ** 2) * 1e6
-    derr = abs(float(drift) - case["drift_ppm"])
-    ctx.stat("drift_err_ppm", derr)
-    ctx.stat("drift_err_minus_bound_ppm", derr - bound_ppm)  # must stay below DRIFT_SLACK_PPM
-    if J >= 1e-6:
-        ctx.stat("drift_err_over_bound", derr / bound_ppm)
-    ctx.check(derr <= bound_ppm + DRIFT_SLACK_PPM, "C19.drift",
-              lambda: f"reported drift {float(drift):.6f} ppm, true {case['drift_ppm']:.6f} ppm, error {derr:.4g} > bound {bound_ppm:.4g} + {DRIFT_SLACK_PPM}")
+    got = _check_map_and_drift(case, t, prim[0], prim[1], th, tm, lo, hi, ctx)
+    if not ri:
+        ref = _check_map_and_drift(case, t, full[0], full[1], th, tm, lo, hi, ctx)
+        # (5) (function, drift) and (function, drift, ia, ib) are documented as the same fit with or without the indices
+        if got is not ctx.CRASH and ref is not ctx.CRASH and th.size:
+            dis = float(np.max(np.abs(got - ref)))
+            ctx.stat("forms_disagree_s", dis)
+            ctx.check(dis <= TOL_MAP, "C19.forms_agree",
+                      lambda: f"maps returned with return_indices False and True differ by {dis:.3g} s > {TOL_MAP} s at a held-out time inside the matched span")
